@@ -885,6 +885,29 @@ def run(ctx):
             d = (len(m.group(1)) // 2 - 33) // 32
             depth[d] = depth.get(d, 0) + 1
     ctx.notes.append({"exhaustive": {"cases": len(cases), "parity": par, "path_lengths": dict(sorted(depth.items()))}})
+    # ---- which child goes first is decided on all 256 bits: the real TapBranch class on pairs of hashes that agree on a prefix of
+    #      every length (such leaves cannot be produced from scripts without a search), against model, spec and hashlib
+    bl, exp = [], []
+    for k in list(range(0, 32)) + [31, 31]:
+        for rep in range(2 if quick else 12):
+            pre = bytes(rnd.randrange(256) for _ in range(k))
+            x, y = rnd.randrange(256), rnd.randrange(256)
+            if x == y: y = (y + 1) % 256
+            a = pre + bytes([x]) + bytes(rnd.randrange(256) for _ in range(31 - k))
+            b = pre + bytes([y]) + bytes(rnd.randrange(256) for _ in range(31 - k))
+            for (l, r) in ((a, b), (b, a)):
+                bl.append("TAPBRANCH %s %s" % (l.hex(), r.hex()))
+                lo, hi = (l, r) if l < r else (r, l)
+                exp.append(tagged("TapBranch", lo + hi).hex())
+    for (l, r) in ((bytes(32), bytes(32)), (b"\xff" * 32, b"\xff" * 32), (bytes(31) + b"\x01", bytes(32)), (b"\x80" + bytes(31), b"\x7f" + b"\xff" * 31)):
+        bl.append("TAPBRANCH %s %s" % (l.hex(), r.hex()))
+        lo, hi = (l, r) if l < r else (r, l)
+        exp.append(tagged("TapBranch", lo + hi).hex())
+    bi = ctx.harness(bl); bm = ctx.driver(bl, "model"); bs = ctx.driver(bl, "spec")
+    ctx.compare("branch-order", bl, bi, bm, bs, nontrivial=lambda c, im: True)
+    for l, im, e in zip(bl, bi, exp):
+        if im != e:
+            ctx.violation(l, {"stream": "branch-order", "impl": im, "expected": e, "why": "TapBranch over two hashes is not the BIP341 branch hash (smaller hash first, compared on all 32 bytes)"})
     # ---- the same without transactions (address only) in pipe mode: what a user funding the address sees
     notx = []
     for c in cases:
